@@ -79,6 +79,15 @@ for c in checks:
     sigs = [l.strip()[:260] for l in p.stdout.splitlines() if l.strip().startswith("signature=")]
     results[c] = {"exit": p.returncode, "signatures": sigs[:4]}
     print("check %s exit=%d %s" % (c, p.returncode, sigs[:1]))
+old_meta_path = os.path.join(VERIF, "seeded", sid, "meta.json")
+if "--checks" in sys.argv and os.path.exists(old_meta_path):
+    # re-confirmation after a strengthening: keep the first full run, overlay the re-run checks
+    old = json.load(open(old_meta_path))
+    meta["first_run"] = old.get("first_run") or {"caught_by": old.get("caught_by"), "exits": {c: r["exit"] for c, r in old.get("checks", {}).items()}}
+    merged = dict(old.get("checks", {}))
+    merged.update(results)
+    results = merged
+    meta["rechecked"] = sorted(set(old.get("rechecked", [])) | set(checks))
 meta["checks"] = results
 meta["caught_by"] = [c for c, r in results.items() if r["exit"] == 1]
 clean()
